@@ -663,3 +663,37 @@ Proof.
     + pose proof (process_announce_safe u buf) as [S _].
       destruct (process_announce u buf) as [[k u1] e1]. cbn [fst snd] in *. destruct k; exact S.
 Qed.
+
+(* ------------------------------------------------------------------ non-vacuity examples *)
+
+Example ex_compact : parse_compact [1;2;3;4;0;80; 10;11;12;13;31;144; 255] = POk [A4 16909060 80; A4 168496141 8080].
+Proof. vm_compute. reflexivity. Qed.
+Example ex_compact6 : whole_records true (repeat 0 15 ++ [1; 26; 225] ++ repeat 255 17) = [A6 1 6881].
+Proof. vm_compute. reflexivity. Qed.
+Example ex_normal_accepts :
+  normal_entry (VMap [([105;112], VStr [49;46;50;46;51;46;52]); ([112;111;114;116], VInt 6881)]) = Some (A4 16909060 6881).
+Proof. vm_compute. reflexivity. Qed.
+Example ex_normal_v6 :
+  normal_entry (VMap [([105;112], VStr [58;58;49]); ([112;111;114;116], VInt 80)]) = Some (A6 1 80).
+Proof. vm_compute. reflexivity. Qed.
+Example ex_normal_rejects_nul :
+  normal_entry (VMap [([105;112], VStr [49;46;50;46;51;46;52;0;120]); ([112;111;114;116], VInt 6881)]) = None.
+Proof. vm_compute. reflexivity. Qed.
+(* the pipeline drops 0.0.0.0:6881, 1.2.3.4:0 and the duplicate, keeps the rest up to the cap of 2 *)
+Example ex_pipeline :
+  pl_run 2 [OpTracker [0;0;0;0;26;225; 1;2;3;4;0;0; 1;2;3;4;0;80; 1;2;3;4;0;80; 9;9;9;9;0;1; 8;8;8;8;0;1] []]
+  = POk ([A4 16909060 80; A4 134744072 1], [2]).
+Proof. vm_compute. reflexivity. Qed.
+Example ex_udp_header_ok :
+  fst (fst (process_header (udp0 false 0) 0 [0;0;0;0; 192;0;0;1; 0;0;0;0;0;0;0;1])) = HdrOk.
+Proof. vm_compute. reflexivity. Qed.
+Example ex_udp_flow :
+  snd (udp_run false 0 [(true, [0;0;0;0; 192;0;0;1; 0;0;0;0;0;0;0;1]);
+                        (true, [0;0;0;1; 160;0;0;2; 0;0;7;8; 0;0;0;1; 0;0;0;2; 1;2;3;4;26;225; 9])])
+  = [EvConnected 1; EvSuccess [A4 16909060 6881]].
+Proof. vm_compute. reflexivity. Qed.
+Example ex_udp_error_fails_one :
+  snd (udp_run false 5 [(true, [0;0;0;3; 192;0;0;1; 98;97;100])]) = [EvFamilyReset].
+Proof. vm_compute. reflexivity. Qed.
+Example ex_http_malformed : decode_stream [100; 101; 120] <> Fault /\ snd (http_receive_done [] 2 [0] tstate0) = EvFailure m_parse.
+Proof. split; [vm_compute; discriminate|vm_compute; reflexivity]. Qed.
